@@ -156,7 +156,13 @@ def run(prop, tier, seed, **kw):
         for s in longs:
             traces.append(replay(options, s, cleanup_at=set(range(10, len(s), 37))))
         defs = {"TD_Addrs": set(ADDRS), "TD_Cmds": set(CMDS), "TD_Rules": rules_tla(rules)}
-        verdicts, vstats = tracedata.validate("RateLimiter_Trace", defs, traces, batch=1500 if len(traces) > 3000 else 400)
+        # the exhaustive short sequences go in large batches, the long runs in small ones (one TLC per batch reads them all)
+        nshort = len(seqs)
+        v1, vstats = tracedata.validate("RateLimiter_Trace", defs, traces[:nshort], batch=1500 if nshort > 3000 else 400)
+        v2, vstats2 = tracedata.validate("RateLimiter_Trace", defs, traces[nshort:], batch=20)
+        out.add_model(vstats2)
+        verdicts = dict(v1)
+        verdicts.update({nshort + k: v for k, v in v2.items()})
         out.add_model(vstats)
         for k, tr in enumerate(traces):
             out.cov["evaluations"] += 1
